@@ -38,7 +38,7 @@ func zzSpecHasPSK(id ClientHelloID) bool {
 	return false
 }
 
-//verif:harness C02 parrots_valid unwind=4000 instrs=400000000 paths=20000
+//verif:harness C02 parrots_valid unwind=4000 instrs=400000000 paths=300000 wall=3600
 //verif:stub (*math/rand.Rand).Shuffle zzStubShuffle
 //verif:expect end
 //verif:assume library-generated key shares have the documented size; (*math/rand.Rand).Shuffle only calls swap(i,j) with 0<=j<=i<n
@@ -325,10 +325,10 @@ func zzC04WireGrease() {
 	verifReach("end")
 }
 
-//verif:harness C05 parrot_padding_length unwind=4000 instrs=400000000 paths=40000
-//verif:stub (*math/rand.Rand).Shuffle zzStubShuffle
+//verif:harness C05 parrot_padding_length unwind=4000 instrs=400000000 paths=300000 wall=3600
+//verif:stub (*math/rand.Rand).Shuffle zzStubShuffleIdentity
 //verif:expect end
-//verif:doc Every predefined parrot whose spec carries a BoringSSL-style padding extension x SNI lengths (quick: 12 lengths spread over 1..253; thorough: every length 1..253) x optionally a rebuild after SetSNI with a name of length 1/60/150/253 (the padding extension is marshalled twice), all random bytes symbolic: with U = handshake message length without the padding extension, 255 < U < 512 => total 512 (or a 1-byte body when fewer than 5 bytes are missing), otherwise no padding extension; body all zero; at most one padding extension.
+//verif:doc Every predefined parrot whose spec carries a BoringSSL-style padding extension x SNI lengths (12 lengths spread over 1..253; thorough tier additionally every length 1..253, without the rebuild step) x optionally a rebuild after SetSNI with a name of length 1/60/150/253 (the padding extension is marshalled twice), all random bytes symbolic: with U = handshake message length without the padding extension, 255 < U < 512 => total 512 (or a 1-byte body when fewer than 5 bytes are missing), otherwise no padding extension; body all zero; at most one padding extension.
 func zzC05ParrotPaddingLength() {
 	p := zzChooseParrot()
 	spec, _ := zzRefSpec(p.id)
@@ -343,7 +343,8 @@ func zzC05ParrotPaddingLength() {
 		return
 	}
 	var l int
-	if verifThorough() {
+	every := verifThorough() && verifBool("every-sni-length")
+	if every {
 		l = 1 + verifChoice("snilen", 253)
 	} else {
 		ls := []int{1, 2, 9, 40, 90, 100, 101, 120, 170, 200, 252, 253}
@@ -359,7 +360,7 @@ func zzC05ParrotPaddingLength() {
 	// optionally the hello is rebuilt with a server name of another length (the
 	// same padding extension object is marshalled a second time): the rule
 	// applies to the hello that results
-	if verifBool("rebuild-with-other-sni") {
+	if !every && verifBool("rebuild-with-other-sni") {
 		l2s := []int{1, 60, 150, 253}
 		uc.SetSNI(strings.Repeat("b", l2s[verifChoice("snilen2", len(l2s))]))
 		err = uc.BuildHandshakeState()
@@ -401,7 +402,7 @@ func zzC05ParrotPaddingLength() {
 }
 
 //verif:harness C18 key_shares_backed unwind=4000 instrs=400000000 paths=20000
-//verif:stub (*math/rand.Rand).Shuffle zzStubShuffle
+//verif:stub (*math/rand.Rand).Shuffle zzStubShuffleIdentity
 //verif:expect end
 //verif:assume crypto/ecdh and crypto/mlkem produce keys of their documented sizes with arbitrary bytes
 //verif:doc Every predefined parrot: each non-GREASE key share on the wire has the size its group requires, carries exactly the public bytes of a key generated during this ApplyPreset (never a constant), hybrid shares concatenate in the order of their code point, and KeyShareKeys retains a private key for every share sent; QUIC-less connections send a 32-byte random session id; client random is RNG output.
@@ -480,7 +481,7 @@ func zzC18KeySharesBacked() {
 }
 
 //verif:harness C16 grease_ech_on_wire unwind=4000 instrs=400000000 paths=20000
-//verif:stub (*math/rand.Rand).Shuffle zzStubShuffle
+//verif:stub (*math/rand.Rand).Shuffle zzStubShuffleIdentity
 //verif:expect end
 //verif:assume HPKE SetupSender returns a 32-byte encapsulated key with arbitrary content
 //verif:doc Every predefined parrot whose spec carries a GREASE ECH extension (no real ECH config): the wire extension is a well-formed outer ECH extension, (KDF, AEAD) and payload length come from the spec's candidates (+16-byte tag), the encapsulated key is 32 bytes, and a second marshal (the HelloRetryRequest path) emits identical bytes.
